@@ -70,7 +70,7 @@ def main():
         "git -C /tmp/wt/%s apply patch.diff; /venv/bin/python demo.py (must fail); pytest suite (386 passed); git checkout -- .; demo.py (must pass)" % pid,
         "tools/mut.py %s --patch seeded/%s-%s/patch.diff (scratch copy of /repo + patch, ./check %s --tier quick)" % (pid, pid, x, pid),
     ]
-    notes = os.path.join(out, {"C": "NOTES2.md", "D": "NOTES2.md", "E": "NOTES3.md", "F": "NOTES3.md", "G": "NOTES4.md", "H": "NOTES4.md", "I": "NOTES5.md", "J": "NOTES5.md", "K": "NOTES6.md", "L": "NOTES6.md"}.get(x, "NOTES.md"))
+    notes = os.path.join(out, {"C": "NOTES2.md", "D": "NOTES2.md", "E": "NOTES3.md", "F": "NOTES3.md", "G": "NOTES4.md", "H": "NOTES4.md", "I": "NOTES5.md", "J": "NOTES5.md", "K": "NOTES6.md", "L": "NOTES6.md", "M": "NOTES7.md", "N": "NOTES7.md"}.get(x, "NOTES.md"))
     if os.path.exists(notes):
         shutil.copy(notes, os.path.join(d, "AGENT_NOTES.md"))
     json.dump(meta, open(os.path.join(d, "meta.json"), "w"), indent=1)
